@@ -138,6 +138,32 @@ func observe(db *meta.DB, addrs []oid.Address) ([]Obs, error) {
 	return res, nil
 }
 
+// stBoth is the class of an object that is BOTH expired at the read epoch and
+// targeted by a tombstone: "removed" and "expired" both follow from the stored
+// objects, which of the two refusals the metabase reports is not asserted.
+const stBoth = "removed-or-expired"
+
+// normalise folds removed/expired of such objects into stBoth.
+func normalise(s Set, f facts, addrs []oid.Address, v []Obs) {
+	for i, a := range addrs {
+		if v[i].Class != stRemoved && v[i].Class != stExpired {
+			continue
+		}
+		m, ok := f.stored[a]
+		if !ok {
+			continue
+		}
+		fam := s.Families[m.Fam]
+		root := uni.Addr(fam.Cnr, fam.Root)
+		direct := m.Spec.Parent == fam.Root && fam.Form != "plain"
+		removed := f.tombOn[a] || direct && f.tombOn[root]
+		expired := expiredAt(m.Spec.Exp, s.Eq) || direct && expiredAt(fam.RootExp, s.Eq)
+		if removed && expired {
+			v[i].Class = stBoth
+		}
+	}
+}
+
 func fmtVec(addrs []oid.Address, v []Obs) string {
 	var b strings.Builder
 	for i := range addrs {
@@ -256,7 +282,7 @@ func expected(s Set, f facts, m Member) (classes []string, locked, ok bool) {
 	}
 	switch {
 	case removed && expired:
-		return []string{stRemoved, stExpired}, false, true
+		return []string{stBoth}, false, true
 	case removed:
 		return []string{stRemoved}, false, true
 	case expired:
@@ -298,6 +324,7 @@ func checkSet(t *rapid.T, rec *ev.Recorder, s Set, db, db2 *meta.DB, ep *stor.Ep
 	blobs := blobsOf(s)
 	addrs := s.interest()
 	lt := s.isLT()
+	f := s.facts()
 	var base []Obs
 	consistent := true
 	for pi, p := range perms {
@@ -310,6 +337,7 @@ func checkSet(t *rapid.T, rec *ev.Recorder, s Set, db, db2 *meta.DB, ep *stor.Ep
 		if err != nil {
 			t.Fatalf("observe after blob order %v: %v\n%s", p, err, s.Short())
 		}
+		normalise(s, f, addrs, v)
 		if pi == 0 {
 			base = v
 			continue
@@ -320,10 +348,26 @@ func checkSet(t *rapid.T, rec *ev.Recorder, s Set, db, db2 *meta.DB, ep *stor.Ep
 				continue
 			}
 			var diff []string
+			tp, onlyTP := s.tombOnParentFamilies(), true
+			xp, onlyXP := s.expiredParentFamilies(), true
 			for i := range addrs {
 				if base[i] != v[i] {
 					diff = append(diff, fmt.Sprintf("%s: %v (order %v) vs %v (order %v)", fmtAddr(addrs[i]), base[i], perms[0], v[i], p))
+					if !tp[s.famOf(addrs[i])] {
+						onlyTP = false
+					}
+					if !xp[s.famOf(addrs[i])] {
+						onlyXP = false
+					}
 				}
+			}
+			if onlyTP && rec.Known(fpTombParent) {
+				rec.Label("known:" + fpTombParent)
+				return
+			}
+			if onlyXP && rec.Known(fpExpParent) {
+				rec.Label("known:" + fpExpParent)
+				return
 			}
 			t.Fatalf("statuses depend on the blob order:\n  %s\n%s", strings.Join(diff, "\n  "), s.Short())
 		}
@@ -340,7 +384,6 @@ func checkSet(t *rapid.T, rec *ev.Recorder, s Set, db, db2 *meta.DB, ep *stor.Ep
 	}
 
 	// (2) the vector follows from the stored objects
-	f := s.facts()
 	idx := map[oid.Address]int{}
 	for i, a := range addrs {
 		idx[a] = i
@@ -389,6 +432,7 @@ func checkSet(t *rapid.T, rec *ev.Recorder, s Set, db, db2 *meta.DB, ep *stor.Ep
 		if err != nil {
 			t.Fatalf("observe after incremental puts %v: %v", p, err)
 		}
+		normalise(s, f, addrs, v)
 		if !slices.Equal(base, v) {
 			var diff []string
 			for i := range addrs {
@@ -425,7 +469,9 @@ func TestC18Resync(t *testing.T) {
 	rec := ev.New("C18", "resync")
 	defer rec.Flush()
 	rapid.Check(t, func(t *rapid.T) {
-		s := genSet(t, genCfg{allowLT: rapid.IntRange(0, 5).Draw(t, "lt-class") == 0, minN: 2, maxN: 8, cnrs: 2})
+		s := genSet(t, genCfg{allowLT: rapid.IntRange(0, 5).Draw(t, "lt-class") == 0, minN: 2, maxN: 8, cnrs: 2,
+			noTombOnParent: ev.IsOpen("C18", fpTombParent), noExpiredParent: ev.IsOpen("C18", fpExpParent)})
+		rec.Excluded(int64(s.excluded))
 		n := len(s.Members)
 		if n < 2 {
 			rec.Case(false, s.String(), "too-small")
